@@ -137,7 +137,10 @@ def ode15s(dae: nDAE,
         else:
             wt = np.maximum(np.abs(y0), threshold)
             rh = 1.25 * linalg.norm(yp0 / wt, np.inf) / (opt.rtol) ** (1 / 2)
-        absh = np.minimum(hmax, tend - t0)
+        # an automatically chosen first step covers at most a tenth of the span (the hmax default of MATLAB ode15s):
+        # with y'(t0) = 0 and y''(t0) = 0 both estimates below say nothing, and one BDF1 step over the whole span that
+        # ends where F(tend, y0) = 0 returns y0 with an error estimate of exactly 0
+        absh = np.minimum(hmax, 0.1 * (tend - t0))
         if absh * rh > 1:
             absh = 1 / rh
         absh = np.maximum(absh, hmin)
@@ -150,7 +153,7 @@ def ode15s(dae: nDAE,
             DfDt = solve_lin(dae.M, (dae.F(t0 + tdel, y0 + tdel * yp0, dae.p) - dae.F(t0, y0, dae.p)) / tdel)
             stats.nfeval += 2
             rh = 1.25 * np.sqrt(0.5 * linalg.norm(DfDt / wt, np.inf) / opt.rtol)
-            absh = np.minimum(hmax, tend - t0)
+            absh = np.minimum(hmax, 0.1 * (tend - t0))
             if absh * rh > 1:
                 absh = 1 / rh
             absh = np.maximum(absh, hmin)
